@@ -15,6 +15,7 @@ import KcpVerif.Lemmas.SysDrainReturn
 import KcpVerif.Lemmas.SysDrainReturn2
 import KcpVerif.Lemmas.SysDrainTimer2
 import KcpVerif.Lemmas.SysDrainHead3
+import KcpVerif.Lemmas.SysDrainOrder
 /-! C02 — eventual delivery: a healed network always drains the backlog. -/
 namespace KcpVerif.Props
 open KcpVerif KcpVerif.Gen KcpVerif.Kcp KcpVerif.Live
@@ -967,5 +968,47 @@ theorem C02_phase_release_arrives {p : Par} {s : State} {t0 : Nat} {frs : List W
 * a head that has never been sent (`xmit = 0`, admitted by an ACK-only flush): phase A emits it at the
   next flush (`C02_phase_retx_emitted`), the chain is the same with `R = now`;
 * zero-window probing for the send QUEUE, and the induction on outstanding + queued segments. -/
+
+/-! ### B is not behind A's head; the progress step without that hypothesis
+
+`SysC.SortedB` (B's reorder buffer sorted, at or after `rcv_nxt`) and `Live.MoveFix` are kept by every
+event (`SysC.sortedB_step`, `SysC.fix_step`); with `Live.LiveInv` for A they form `SysC.Side`, which
+holds together with `Cons` after ANY fault history from two fresh cores (`SysC.cons_side_netRun`,
+`SysC.side_init`). -/
+
+open KcpVerif.Sys KcpVerif.SysC in
+/-- **B is not behind A's head whenever its delivery queue is not full** — in particular at every
+`tick` of the system with a fair reader (a `tick` is refused while something is readable).  From
+`Cons.arel` (B has everything below `snd_una`), the order of the reorder buffer and the fixpoint of the
+move loop. -/
+theorem C02_receiver_not_behind {p : Par} {s : State} {gab gba : GLink} (h : Cons p s gab gba) (hs : Side p.base s)
+    (hq : s.B.rcv_queue.length < s.B.rcv_wnd.toNat) :
+    o p.base s.A.snd_una ≤ o p.base s.B.rcv_nxt := not_behind h hs.srt hs.fix hq
+
+open KcpVerif.Sys KcpVerif.SysC in
+/-- **`C02_progress_step`** — the head segment, arbitrary reachable state, fair network and fair reader
+from now on.  Hypotheses: `Cons` and `Side` (both hold after ANY fault history, see above); B's delivery
+queue is not full now (true at every `tick`); B flushes at least every `IB` ms (`Tm`), A every `IA` ms
+with its next flush at or before `T1 ≥ R + IA` (e.g. `T1 = max(R, now) + IA`); the head `x` of A's send
+buffer has been sent before and its timer is at `R`.  Conclusion: in EVERY later state of the fair
+system whose clock is past `T1 + D + IB + D`, `snd_una` is beyond `x.sn` — the segment has been
+retransmitted, accepted or re-acknowledged, and released.  Bound: `resendts − now + interval_A + 2 D +
+interval_B` as in `C02_progress_step_full`.  Run hypothesis `RunSmallH` (fewer than 2^30 segments,
+`1 ≤ rcv_wnd < 2^30`); data from A to B only. -/
+theorem C02_progress_step {p : Par} {s : State} {gab gba : GLink} (h : Cons p s gab gba) (hs : Side p.base s)
+    (hq : s.B.rcv_queue.length < s.B.rcv_wnd.toNat) (x : Seg) (rest : List Seg) (hb : s.A.snd_buf = x :: rest)
+    (hxm : x.xmit ≠ 0) (R T1 IA IB : Nat) (hxr : x.resendts = clk R) (hT : R + IA ≤ T1 ∧ T1 < R + 2 ^ 31)
+    (hiv : s.A.interval.toNat = IA) (hnf : s.nfA ≤ T1) (hnw : s.now ≤ T1) (ht : Tm IB s)
+    (evs : List Ev) (hsm : RunSmallH p.base s evs) (hnow : T1 + s.D + IB + s.D < (Sys.run s evs).now) :
+    o p.base x.sn < o p.base (Sys.run s evs).A.snd_una := by
+  have hhl : s.A.snd_una = x.sn := by
+    have := hs.live.1
+    unfold Live.HeadLive at this
+    rw [hb] at this
+    exact this.2
+  have hrb : o p.base x.sn ≤ o p.base s.B.rcv_nxt := by
+    rw [← hhl]; exact not_behind h hs.srt hs.fix hq
+  exact retH3_done h hs.live (o p.base x.sn) R T1 IA IB hT ht
+    ⟨⟨x, rest, hb, rfl, hxm, hxr⟩, hiv, hnf, hnw, hrb⟩ evs hsm hnow
 
 end KcpVerif.Props
